@@ -5,6 +5,7 @@ CONSTANTS
   AppName <- AppNameTr
   AppVersion <- AppVersionTr
   Starts <- StartsNone
+  RegOffer <- RegNone
   EnvGet <- EnvTrace
   Obs <- ObsTrace
 INVARIANTS OutputBounded NeverReadsPastEnd
